@@ -1014,3 +1014,83 @@ V('domain-mapnode-raw', 'C12', 'breaking',
             else:
                 return v""")],
   'R-DOMAIN/foreign-return/dd.bdd.BDD.load.map_node', 'file id returned as root')
+
+# ------------------------------------------- R-FORMAT / R-BOUND / R-DISPATCH
+V('format-load-none-roots', 'C12', 'breaking',
+  [(B, """        if roots is None:
+            # All nodes were dumped to the file,
+            # without naming any roots.
+            return list()
+        def map_node(u):""", """        def map_node(u):""")],
+  'R-FORMAT/optional-field/dd.bdd.BDD.load', 'F8 reintroduced')
+V('format-pickle-key', 'C12', 'breaking',
+  [(B, """        d = dict(
+            vars=self.vars,
+            succ=dict(succ),
+            roots=roots)""", """        d = dict(
+            vars=self.vars,
+            nodes=dict(succ),
+            roots=roots)""")],
+  'R-FORMAT/pickle-keys/dd.bdd.BDD._load_pickle', 'writer renamed a key')
+V('format-manager-ref-dropped', 'C12', 'breaking',
+  [(B, """            succ=self._succ,
+            ref=self._ref,
+            min_free=self._min_free)""", """            succ=self._succ,
+            min_free=self._min_free)"""),
+   (B, "        bdd._ref = d['ref']\n", "")],
+  'R-FORMAT/manager-state', 'reference counts not stored in the manager dump')
+V('format-manager-crossed', 'C12', 'breaking',
+  [(B, "        bdd._pred = d['pred']\n        bdd._succ = d['succ']",
+       "        bdd._pred = d['succ']\n        bdd._succ = d['pred']")],
+  'R-FORMAT/manager-state/dd.bdd.BDD._load_manager', 'tables restored crossed')
+V('format-json-terminals', 'C12', 'breaking',
+  [('dd/_copy.py', """        case 'F':
+            return -1
+        case 'T':
+            return 1""", """        case 'F':
+            return 1
+        case 'T':
+            return -1""")],
+  'R-FORMAT/json-terminals', 'T and F decoded crossed')
+V('format-json-header', 'C12', 'breaking',
+  [('dd/_copy.py', """    roots = d.get('roots')
+    if roots is not None:""", """    roots = d.get('root')
+    if roots is not None:""")],
+  'R-FORMAT/json-fields', 'reader looks for another key')
+V('bound-negative-level', 'C14', 'breaking',
+  [(B, """        if level < 0:
+            raise AssertionError(
+                f'`{level = } < 0')
+        # level already used ?""", """        # level already used ?""")],
+  'R-BOUND/lower', 'negative levels accepted')
+VARIANTS[-1]['edits'] = [(B, """        if level < 0:
+            raise AssertionError(
+                f'`{level = } < 0')
+        # level already used ?
+        other""", """        # level already used ?
+        other""")]
+V('bound-occupied', ['C14'], 'breaking',
+  [(B, """        other = self._level_to_var.get(level)
+        if other is None:
+            return level""", """        other = self._level_to_var.get(level)
+        if other is None or level is not None:
+            return level""")],
+  'R-BOUND/occupied', 'occupied level accepted')
+V('dispatch-int-first', 'C04', 'breaking',
+  [(B, """        if isinstance(value, bool):
+            return self.cofactor(u, d)
+        elif isinstance(value, int):
+            return self.compose(u, d)""", """        if isinstance(value, int):
+            return self.compose(u, d)
+        elif isinstance(value, bool):
+            return self.cofactor(u, d)""")],
+  'R-DISPATCH/order/dd.bdd.BDD.let', 'True read as node 1')
+V('dispatch-crossed', 'C04', 'breaking',
+  [(B, """        if isinstance(value, bool):
+            return self.cofactor(u, d)
+        elif isinstance(value, int):
+            return self.compose(u, d)""", """        if isinstance(value, bool):
+            return self.compose(u, d)
+        elif isinstance(value, int):
+            return self.cofactor(u, d)""")],
+  'R-DISPATCH/arms/dd.bdd.BDD.let', 'arms exchanged')
